@@ -6,7 +6,7 @@ from . import common as C
 
 
 def enum_check(prop, harness, tier, level, rule, assumptions, args=(), witness=(), flavour="asan",
-               timeout=None, extra_cov=None, post=None, nshards=None):
+               timeout=None, extra_cov=None, post=None, nshards=None, key_transform=None):
     t0 = time.time()
     bdir = C.build([harness], flavour)
     binary = os.path.join(bdir, harness)
@@ -25,11 +25,15 @@ def enum_check(prop, harness, tier, level, rule, assumptions, args=(), witness=(
     by_key = {}
     for v in res["violations"]:
         by_key.setdefault(v["key"], v)
+    if key_transform:
+        # maps fine-grained harness keys to the reported finding keys: {reported_key: violation (with 'orig_key')}
+        by_key = key_transform(by_key)
     for key, v in sorted(by_key.items()):
         ok = 0
+        okey = v.get("orig_key", key)
         for _ in range(2):
             vio, rc, err = C.run_replay(binary, v["case"], ["--tier", tier] + list(args))
-            if any(x["key"] == key for x in vio):
+            if any(x["key"] == okey for x in vio):
                 ok += 1
         if ok != 2:
             raise C.InternalError("violation %s did not reproduce deterministically (%d/2): %s"
